@@ -245,6 +245,28 @@ fn serve_connect_proxy(l: TcpListener) {
 }
 
 pub fn pki() -> &'static Pki {
+    let p = pki_init();
+    // The first TLS handshake of the process is made by a request that carries the private CA as an added root
+    // (and succeeds): whatever a back end remembers from its first handshake must not leak into later requests.
+    static PRIMED: std::sync::Once = std::sync::Once::new();
+    PRIMED.call_once(|| {
+        let port = p.ports.iter().find(|x| x.0 == ("ca".to_string(), false, true)).unwrap().1;
+        attohttpc::verif::set_resolver(Some(Box::new(move |host, prt| if host.ends_with(".test") { Some(vec![SocketAddr::from(([127, 0, 0, 1], prt))]) } else { None })));
+        let r = attohttpc::get(format!("https://good.test:{}/x", port))
+            .proxy_settings(attohttpc::ProxySettings::builder().build())
+            .add_root_certificate(root_cert(p))
+            .connect_timeout(Duration::from_secs(3))
+            .read_timeout(Duration::from_secs(3))
+            .send();
+        attohttpc::verif::set_resolver(None);
+        if r.is_err() {
+            eprintln!("priming handshake failed: {:?}", r.err().map(|e| crate::exchange::err_kind(&e)));
+        }
+    });
+    p
+}
+
+fn pki_init() -> &'static Pki {
     PKI.get_or_init(|| {
         let (ca, ca_key) = mint("verif private CA", None, true, None, false, 1);
         let (ca2, ca2_key) = mint("verif unknown CA", None, true, None, false, 2);
